@@ -68,7 +68,7 @@ class Run:
 
     # ------------------------------------------------------------- scripts on the real code
     def batch(self, name, trace_spec, episodes, profile="verif", shards=12, nontrivial=None, env=None,
-              wall_timeout=7200, cfg=None):
+              wall_timeout=7200, cfg=None, jobs=1):
         """Executes the episodes on the real code and validates the trace."""
         if not episodes:
             return
@@ -78,7 +78,7 @@ class Run:
         tp = self.work / (name + ".trace.ndjson")
         core.write_script(sp, episodes)
         t0 = time.time()
-        st = core.run_script(exe, sp, tp, episodes, wall_timeout=wall_timeout)
+        st = core.run_script(exe, sp, tp, episodes, wall_timeout=wall_timeout, jobs=jobs)
         t1 = time.time()
         v = core.validate_trace(trace_spec, tp, shards=shards, env=env, cfg=cfg)
         t2 = time.time()
